@@ -31,6 +31,7 @@ func runC20(r *Report) {
 	c20FilesImmutable(r, "R1")
 	c20Exhaustive(r)
 	c20FilesAfterComplete(r, "R1")
+	c20OffsetsContiguous(r, "R1")
 	rangeExhaustive(r, "R2", func(f *ssa.Function) bool { pk := relPkg(f); return pk == "http" || pk == "fuse" }, 1)
 	c20R2(r)
 	c20R3(r)
@@ -1749,4 +1750,122 @@ func c20FromTestedList(p *Prog, t ssa.Value, ic *ssa.Function) bool {
 		n++
 	}
 	return n > 0
+}
+
+// ---------- the file table's offsets are the running sum of all the files' lengths ----------
+
+// c20OffsetsContiguous: every file of the info dictionary occupies its length in the torrent's byte space, whether or
+// not it is listed. The Offset stored into a table entry is a running sum: a loop variable that starts at 0 and to
+// which, on EVERY way round the loop, a file's Length is added — an iteration that goes round without adding (a file
+// skipped by `continue` before the accumulation) gives every later file the offset of other bytes.
+func c20OffsetsContiguous(r *Report, rule string) {
+	p := r.P
+	mc := p.Func("tor", "Torrent.MetadataComplete")
+	if !r.Anchor(rule, "tor.(*Torrent).MetadataComplete", mc != nil) {
+		return
+	}
+	isLen := func(v ssa.Value) bool {
+		return fieldLoadOf("BFile", "Length")(v) || fieldLoadOf("Torfile", "Length")(v)
+	}
+	// runningSum: v is a loop phi Q, 0 on entry, and every value it is carried round with is Q + <a Length>
+	runningSum := func(v ssa.Value) (ok bool, why string) {
+		q, isPhi := stripIntConv(v).(*ssa.Phi)
+		if !isPhi {
+			return false, "the offset is not a loop-carried running sum"
+		}
+		nAcc := 0
+		var carried func(e ssa.Value, seen map[ssa.Value]bool) string
+		carried = func(e ssa.Value, seen map[ssa.Value]bool) string {
+			if seen[e] {
+				return ""
+			}
+			seen[e] = true
+			switch x := e.(type) {
+			case *ssa.Const:
+				if k, isK := constInt(x); isK && k == 0 {
+					return ""
+				}
+				return "the running sum does not start at 0"
+			case *ssa.BinOp:
+				if x.Op == token.ADD {
+					other := x.Y
+					base := x.X
+					if stripIntConv(x.Y) == ssa.Value(q) {
+						other, base = x.X, x.Y
+					}
+					if stripIntConv(base) == ssa.Value(q) && mentions(other, isLen, 0) {
+						nAcc++
+						return ""
+					}
+				}
+				return "the value carried round the loop is not the sum plus a file's Length"
+			case *ssa.Phi:
+				if x == q {
+					return "on one way round the loop the running sum is carried on unchanged: a file is passed over without its length being added, so every later file gets the offset of other bytes"
+				}
+				for _, ee := range x.Edges {
+					if w := carried(ee, seen); w != "" {
+						return w
+					}
+				}
+				return ""
+			}
+			return "the value carried round the loop is not the sum plus a file's Length"
+		}
+		seen := map[ssa.Value]bool{}
+		for _, e := range q.Edges {
+			if w := carried(e, seen); w != "" {
+				return false, w
+			}
+		}
+		if nAcc == 0 {
+			return false, "no accumulation of a file's Length feeds the offset"
+		}
+		return true, ""
+	}
+	n := 0
+	for _, f := range p.SrcFuncs() {
+		if relPkg(f) != "tor" {
+			continue
+		}
+		allInstrs(f, func(in ssa.Instruction) {
+			st, ok := in.(*ssa.Store)
+			if !ok {
+				return
+			}
+			fa, ok := st.Addr.(*ssa.FieldAddr)
+			if !ok || !fieldLoadOf("Torfile", "Offset")(fa) {
+				return
+			}
+			n++
+			r.Fn(f)
+			vals := []ssa.Value{st.Val}
+			if pa, isPa := stripIntConv(st.Val).(*ssa.Parameter); isPa && f.Parent() == nil {
+				// the entry is built by a helper that is handed the offset
+				vals = nil
+				idx := -1
+				for i, fp := range f.Params {
+					if fp == pa {
+						idx = i
+					}
+				}
+				calls, esc := p.callSitesOf(f)
+				if idx < 0 || len(esc) > 0 || len(calls) == 0 {
+					r.Undecided(rule, fname(f)+"/offset-is-running-sum", st.Pos(), "the offset stored is a parameter of a function whose callers cannot be enumerated")
+					return
+				}
+				for _, cs := range calls {
+					if idx < len(cs.Common().Args) {
+						vals = append(vals, cs.Common().Args[idx])
+					}
+				}
+			}
+			for _, v := range vals {
+				good, why := runningSum(v)
+				r.Check(good, rule, fname(f)+"/offset-is-running-sum", st.Pos(), "the offset of a table entry is the sum of the lengths of all the files before it (added on every way round the loop)",
+					"file-table offsets: "+why)
+			}
+		})
+	}
+	r.Sentinel(rule+".offset-stores", n, 1)
 }
